@@ -90,21 +90,22 @@ Proof. exact MdlSound.model_sound_x. Qed.
 
 (** ... and for EVERY ORDER in which the parallel tasks of one request run: the real engine runs the
     repairs of a root's transitive firewall callees and the backward projections of a changed
-    firewall as parallel tasks in hash-set order; [run_history_o tord bord] runs them in the order
-    chosen, per state and per root, by the oracles [tord] / [bord] (any permutations:
-    [order_ok]); [run_history] is the instance with the recorded list order.  (True interleaving
+    firewall as parallel tasks in hash-set order; [run_history_op tord bord pord] runs them in the order
+    chosen, per state and per root, by the oracles [tord] / [bord], and the dirty worker expands the
+    callers of a query in the order chosen by [pord] (any permutations: [order_ok]);
+    [run_history] is the instance with the recorded list orders.  (True interleaving
     of those tasks - one suspended in the middle while another runs - is not modelled.) *)
 Theorem C01_model_sound_any_task_order :
-  forall tord bord p ops i n r z, order_ok tord -> order_ok bord -> wf_model_x p ->
-    model_sessions_fuelled_o tord bord p ops i ->
+  forall tord bord pord p ops i n r z, order_ok tord -> order_ok bord -> order_ok pord -> wf_model_x p ->
+    model_sessions_fuelled_op tord bord pord p ops i ->
     nth_error ops i = Some (OQuery n) ->
-    nth_error (run_history_o tord bord p init_state ops) i = Some r ->
+    nth_error (run_history_op tord bord pord p init_state ops) i = Some r ->
     r_out r = RValue z ->
     MdlSpecX p (inputs_after (firstn i ops),
-                ext_after (firstn (S i) ops) (firstn (S i) (run_history_o tord bord p init_state ops))) n z.
-Proof. exact MdlSound.model_sound_x_o. Qed.
+                ext_after (firstn (S i) ops) (firstn (S i) (run_history_op tord bord pord p init_state ops))) n z.
+Proof. exact MdlSound.model_sound_x_op. Qed.
 Theorem C01_model_identity_order_is_run_history : forall p s ops,
-  run_history_o ord_id ord_id p s ops = run_history p s ops.
+  run_history_op ord_id ord_id ord_id p s ops = run_history p s ops.
 Proof. reflexivity. Qed.
 Check ord_rev_ok.        (* reversing is an admissible order ... *)
 Check mex_run_rev.       (* ... it changes the executions, not the answers *)
